@@ -1,8 +1,9 @@
 """C13 Geographic and spatio-temporal consistency: geo_scale reaches every conversion, pair agreement, forcing sites."""
 import ast
+import math
 
 from ..loader import AnalysisError, norm_stmt
-from ..small import cond_defaults
+from ..small import FoldError, cond_defaults, fold
 from .C16 import signed_factors
 
 GEO = "tools/geometric.py"
@@ -103,6 +104,87 @@ def pair_agreement(ctx, rule="R13.2"):
     ok = ok and "dist / diameter" in ast.unparse(r1[0]) and "dist / diameter" in ast.unparse(r2[0])
     ctx.check(ok, rule, GEO + "::great_circle_to_chordal/chordal_to_great_circle", "D sin(d / D) and D arcsin(d / D) with the same diameter D = 2 radius: mutually inverse", "chordal-pair")
 
+    # domains: great-circle distances reach pi * radius, i.e. d / D reaches pi / 2 > 1: the sine's argument must not be clamped below that;
+    # chords reach D, the arcsine's argument may only be clamped to [0, 1] (its whole domain)
+    def clamps(e):
+        """strip np.minimum(x, c) / np.maximum(x, c) / np.clip(x, a, b) wrappers: (core expression, [(kind, bound)])"""
+        out = []
+        while isinstance(e, ast.Call) and ast.unparse(e.func) in ("np.minimum", "np.maximum", "np.clip", "np.fmin", "np.fmax", "min", "max"):
+            fn_ = ast.unparse(e.func)
+            if fn_ == "np.clip" and len(e.args) == 3:
+                out += [("max", e.args[1]), ("min", e.args[2])]
+                e = e.args[0]
+                continue
+            if len(e.args) != 2:
+                break
+            a, b = e.args
+            const, core = (b, a) if isinstance(b, (ast.Constant, ast.UnaryOp, ast.BinOp, ast.Attribute)) and not isinstance(a, ast.Constant) else (a, b)
+            out.append(("min" if "min" in fn_ else "max", const))
+            e = core
+        return e, out
+
+    def trig_arg(ret, fname):
+        calls = [n for n in ast.walk(ret) if isinstance(n, ast.Call) and ast.unparse(n.func) == fname]
+        return calls[0].args[0] if len(calls) == 1 and len(calls[0].args) == 1 else None
+
+    if len(r1) == 1 and len(r2) == 1:
+        a1, a2 = trig_arg(r1[0], "np.sin"), trig_arg(r2[0], "np.arcsin")
+        if a1 is not None and a2 is not None:
+            core1, cl1 = clamps(a1)
+            core2, cl2 = clamps(a2)
+            bad = []
+            for kind, c in cl1:
+                try:
+                    v = fold(c, {})
+                except FoldError:
+                    bad.append("%s(%s): not a constant" % (kind, ast.unparse(c)))
+                    continue
+                if (kind == "min" and v < math.pi / 2) or (kind == "max" and v > 0):
+                    bad.append("%s(..., %s)" % (kind, ast.unparse(c)))
+            ctx.check(ast.unparse(core1) == "dist / diameter" and not bad, rule, GEO + "::great_circle_to_chordal",
+                      "the sine takes d / D on the whole range [0, pi/2] of great-circle distances (clamps found: %s)" % (bad or "none"), "sine-domain")
+            bad2 = []
+            for kind, c in cl2:
+                try:
+                    v = fold(c, {})
+                except FoldError:
+                    bad2.append("%s(%s): not a constant" % (kind, ast.unparse(c)))
+                    continue
+                if (kind == "min" and v < 1) or (kind == "max" and v > 0):
+                    bad2.append("%s(..., %s)" % (kind, ast.unparse(c)))
+            ctx.check(ast.unparse(core2) == "dist / diameter" and not bad2, rule, GEO + "::chordal_to_great_circle",
+                      "the arcsine takes d / D, clamped at most to its domain [0, 1] (clamps narrower than that: %s)" % (bad2 or "none"), "arcsine-domain")
+
+
+YADRENKO = ("vario_yadrenko", "cov_yadrenko", "cor_yadrenko")
+
+
+def single_conversion(ctx, rule="R13.3"):
+    """Great-circle lags are turned into chords exactly once on the way to the isotropic model functions: either by an explicit
+    great_circle_to_chordal (fitting) or inside a *_yadrenko method - never both."""
+    prog = ctx.prog
+    m = prog.mod("covmodel/fit.py")
+    conv = [n for n in ast.walk(m.tree) if isinstance(n, ast.Call) and getattr(n.func, "id", "") == "great_circle_to_chordal"]
+    yad = [n for n in ast.walk(m.tree) if isinstance(n, ast.Call) and isinstance(n.func, ast.Attribute) and n.func.attr in YADRENKO]
+    ctx.check(len(conv) == 1, rule, "covmodel/fit.py", "the fitting module converts lags to chords at exactly one place (%d found)" % len(conv), "fit-one-conversion")
+    for n in yad:
+        ctx.violation(rule, "covmodel/fit.py", "`%s` is evaluated on lags that fitting has already converted to chords (the *_yadrenko methods expect great-circle lags and convert again)"
+                      % " ".join(ast.unparse(n).split())[:80], "double-conversion:" + n.func.attr)
+    if not yad:
+        ctx.ok(rule, "covmodel/fit.py", "the residual/score functions evaluate chord-based model functions only (no *_yadrenko call on converted lags)")
+    # inside the model class every *_yadrenko method converts once and calls the chord-based sibling; nothing else converts
+    n_sites = 0
+    for mm, q, f, ci, kind in prog.all_functions():
+        if mm.relpath.endswith("plot.py") or mm.pyx is not None:
+            continue
+        for node in ast.walk(f):
+            if isinstance(node, ast.Call) and isinstance(node.func, ast.Attribute) and node.func.attr in YADRENKO:
+                n_sites += 1
+                arg = node.args[0] if node.args else None
+                inner = [c for c in ast.walk(arg) if isinstance(c, ast.Call) and getattr(c.func, "id", "") == "great_circle_to_chordal"] if arg is not None else []
+                ctx.check(not inner, rule, "%s::%s" % (mm.relpath, q), "%s receives a great-circle lag (no chord conversion in its argument)" % node.func.attr, "yad-arg:" + node.func.attr)
+    ctx.floor(rule, "*_yadrenko call sites outside plotting", n_sites, 1)
+
 
 def forcing_sites(ctx, rule="R13.3"):
     prog = ctx.prog
@@ -125,6 +207,7 @@ def forcing_sites(ctx, rule="R13.3"):
     ifs = {ast.unparse(s.test): s for s in cv.body if isinstance(s, ast.If)}
     ok = "model.latlon" in ifs and [norm_stmt(x) for x in ifs["model.latlon"].body] == ["x_data = great_circle_to_chordal(x_data, model.geo_scale)"]
     ctx.check(ok, rule, "covmodel/fit.py::_check_vario", "fitting converts great-circle lags to chordal lags iff the model is lat-lon", "fit-chordal")
+    single_conversion(ctx, rule)
     ok = "is_dir_vario and model.latlon" in ifs and any(isinstance(x, ast.Raise) for x in ifs["is_dir_vario and model.latlon"].body)
     ctx.check(ok, rule, "covmodel/fit.py::_check_vario", "anisotropy fitting is refused for lat-lon models", "fit-no-anis")
     ve = prog.func("variogram/variogram.py", "vario_estimate")
